@@ -248,11 +248,12 @@ pub fn run(rep: &mut Report, thorough: bool, replay: Option<Value>) {
     rep.assume("the simulator's exhaustive search itself is complete (that is C37's subject)");
     rep.assume("corpus of 7 hand-written sliced! programs (bounded program family, not all programs)");
     // The state space of the programs that snapshot a top-level fold (its hook enumerates every
-    // subset and order of fold inputs) grows ~15x per input, so the bound is per program.
-    let max_n = if thorough { 5 } else { 3 };
-    let max_n_p1 = if thorough { 4 } else { 3 };
-    let max_n_p4 = if thorough { 3 } else { 2 };
-    let p5_sizes: &[(usize, usize)] = if thorough { &[(1, 1), (1, 2), (2, 1), (2, 2)] } else { &[(1, 1), (1, 2), (2, 1)] };
+    // subset and order of fold inputs) grows fastest, so the bound is per program.
+    let max_n = if thorough { 8 } else { 4 };
+    let max_n_p1 = if thorough { 6 } else { 4 };
+    let max_n_p4 = if thorough { 4 } else { 3 };
+    let p5_sizes: &[(usize, usize)] =
+        if thorough { &[(1, 1), (1, 2), (2, 1), (2, 2), (3, 1), (1, 3), (3, 2), (2, 3), (3, 3)] } else { &[(1, 1), (1, 2), (2, 1), (2, 2)] };
     rep.bound("max_inputs_P2_P3_P6_P7", max_n);
     rep.bound("max_inputs_P1", max_n_p1);
     rep.bound("max_inputs_P4_unordered", max_n_p4);
@@ -326,7 +327,7 @@ pub fn run(rep: &mut Report, thorough: bool, replay: Option<Value>) {
         for n in 1..=max_n_p1 {
             for pattern in ["upfront", "split"] {
                 let case = Case { prog: "P1", n, nb: 0, pattern };
-                if !wanted(&case) || (n > 3 && pattern == "split") {
+                if !wanted(&case) {
                     continue;
                 }
                 judge(&mut st, &case, &mut || {
